@@ -740,11 +740,11 @@ def _run_real(scn, tmpdir, sub, hook=None):
                 continue
         elif c["l"] >= len(objs):
             continue
-        g0 = gstate()
         F = lambda xs_: [flavour(x_, c.get("fl", "py")) for x_ in xs_]      # noqa: E731
         with warnings.catch_warnings(record=True) as w, \
                 (contextlib.nullcontext() if env.get("seterr") else np.errstate(all="ignore")):
             warnings.simplefilter("always")
+            g0 = gstate()
             try:
                 if k == "si":
                     L = objs[c["l"]]
@@ -879,7 +879,7 @@ def _run_real(scn, tmpdir, sub, hook=None):
                 if isinstance(e, AssertionError):
                     raise
                 ans = exc_name(e)
-        g1 = gstate()
+            g1 = gstate()                # inside the errstate context, which would restore np.geterr on exit
         c["_env"] = [x for x in g1 if g1[x] != g0[x]] or None
         answers.append(ans)
         c["_ans"] = ans
@@ -1337,16 +1337,20 @@ def correspond(ctx):
             # where do they differ?
             what = ("hand-written model: " + _first_diff(out, want, dcmds)) if not agree(out, want, dcmds) else \
                 ("functions generated from the current source: " + _first_diff(gout, want, dcmds))
-            if len({v["key"] for v in ctx.violations}) >= 4 or len(ctx.broken) >= 6:
+            # analyse differing scenarios until the property is seen to fail on one of them (the oracle judges fewer
+            # things than the model computes, e.g. interpolation only at nodes), within a bound
+            analysed = ctx.hist.get("differing-scenarios-analysed", 0)
+            if len({v["key"] for v in ctx.violations}) >= 4 or (len(ctx.broken) >= 6 and (ctx.violations or analysed >= 80)):
                 ctx.count("further-differing-scenarios-not-analysed")
                 continue
+            ctx.count("differing-scenarios-analysed")
             r = oracle(_strip(scn), tmpdir)
             if r is not None:
                 scn2 = shrink(_strip(scn), r[0], tmpdir)
                 r2 = oracle(scn2, tmpdir) or r
                 ctx.violation(r2[0], r2[1], dict(input=scn2, detail=r2[2], model_vs_code=what,
                                                  how_to_replay="./check C17 --replay <this file>"))
-            else:
+            elif len(ctx.broken) < 6:
                 ctx.brk("correspondence-broken", what, case=dict(scenario=_strip(scn), driver_commands=dcmds))
     ctx.cov["generated_function_scenarios"] = ngen
     # interpn contract: exact at grid points (finite data), both methods
